@@ -186,7 +186,7 @@ def lake_build(targets):
 # queries, eval, move_generator, count_moves, legal_moves, legal_captures); SpecSanity = theorems about the specification alone
 # (colour symmetry, kings never captured, conservation, published perft counts evaluated in the kernel)
 _IMP = ["Rawr.Proofs.RustImpAgree", "Rawr.Proofs.RustImpAgree_MakeMove", "Rawr.Proofs.RustImpAgree_MoveGen"]
-_SRCH = ["Rawr.Proofs.RustSearchAgree", "Rawr.Proofs.RustSearchAgree_Sort", "Rawr.Proofs.RustSearchAgree_QSearch",
+_SRCH = ["Rawr.Proofs.RustSearchAgree", "Rawr.Proofs.RustSearchAgree_Perft", "Rawr.Proofs.RustSearchAgree_Sort", "Rawr.Proofs.RustSearchAgree_QSearch",
          "Rawr.Proofs.RustSearchAgree_Valid", "Rawr.Proofs.RustSearchAgree_Negamax", "Rawr.Proofs.RustSearchAgree_Root",
          "Rawr.Proofs.RustSearchAgree_Rules"]
 _TXT = "Rawr.Proofs.RustTextAgree"
@@ -200,7 +200,7 @@ EXTRA_MODULES = {
     "C07": ["Rawr.Proofs.RustImpAgree", _TXT, _TXT + "_SetFen"],
     "C09": [_TXT, _TXT + "_SetFen", _TXT + "_Uci", _TXT + "_Rules"],
     "C15": [_TXT, _TXT + "_Go", _TXT + "_SetFen", _TXT + "_Uci"] + _SESS,
-    "C08": ["Rawr.Proofs.RustFnsAgree"] + _IMP + ["Rawr.Proofs.RustSearchAgree", _TXT + "_Go", "Rawr.Props.SpecSanity"],
+    "C08": ["Rawr.Proofs.RustFnsAgree"] + _IMP + ["Rawr.Proofs.RustSearchAgree", "Rawr.Proofs.RustSearchAgree_Perft", _TXT + "_Go", "Rawr.Props.SpecSanity"],
     "C10": ["Rawr.Proofs.RustFnsAgree"],
     "C14": ["Rawr.Proofs.RustFnsAgree"] + _SRCH,
     "C03": ["Rawr.Proofs.RustFnsAgree"] + _SRCH,
